@@ -70,7 +70,7 @@ Min(a, b) == IF a < b THEN a ELSE b
 -----------------------------------------------------------------------------
 (* Records with fixed shapes *)
 
-FL0 == [on |-> FALSE, from |-> 0]
+FL0 == [on |-> FALSE, from |-> 0, open |-> FALSE]
 M0 == [step |-> "", net |-> FALSE,
        got |-> 0, lastk |-> -2, linkk |-> 0, len |-> 0, lock |-> 0, lform |-> "", lhost |-> "same",
        fcl |-> 0, fblen |-> 0, fbcont |-> "", fbend |-> "", errpath |-> FALSE]
@@ -168,7 +168,7 @@ Want ==
 ReqOK(q) ==
   IF fl.on
   THEN /\ q.m \in (Want.ms \cup {"GET"})
-       /\ q.p = "loc" /\ q.li = fl.from
+       /\ fl.open \/ (q.p = "loc" /\ q.li = fl.from)
   ELSE LET x == Want
            open == \/ m.step = "put1" /\ m.lform = "rand"
                    \/ m.step \in {"patch", "commit"} /\ w.lform = "rand"
@@ -399,7 +399,7 @@ Exchange(q, r) ==
           /\ w' = IF call.name = "Close" THEN [w EXCEPT !.closed = TRUE, !.cerr = TRUE] ELSE w
      ELSE \/ \* net/http follows a redirect by itself (it bounds the number of hops; not modelled)
              /\ r.code \in RedirectCodes /\ r.loc \in (UsableLoc \cup {"rand"})
-             /\ fl' = [on |-> TRUE, from |-> k]
+             /\ fl' = [on |-> TRUE, from |-> k, open |-> r.loc = "rand"]
              /\ pc' = "req" /\ UNCHANGED <<w, rd, out, m>>
           \/ \* the response reaches the client's status gate
              /\ fl' = FL0
